@@ -1,4 +1,4 @@
 CONSTANTS N = 5
 SPECIFICATION Spec
-INVARIANTS InvUnit InvInverse InvRotation InvMatHom InvRotate InvCast InvBetween InvDual InvAngleAxis InvEuler3 InvEuler2 InvEuler1 InvEulerQuat
+INVARIANTS InvMatHom InvProbe InvDual InvAngleAxis InvEuler3 InvEuler2 InvEuler1 InvEulerQuat
 CHECK_DEADLOCK FALSE
